@@ -16,6 +16,7 @@ import Driver.OpsRead
 import Driver.OpsConvert
 import Driver.OpsGeo
 import Driver.OpsDtRe
+import Driver.OpsRender
 
 open Lean DI DI.Codec
 
@@ -54,6 +55,9 @@ def dispatch (op : String) (a : Json) : Except String Json :=
   | some r => r
   | none =>
   match DI.Ops.dtreOp op a with
+  | some r => r
+  | none =>
+  match DI.Ops.renderOp op a with
   | some r => r
   | none => .error s!"unknown op {op}"
 
